@@ -145,6 +145,10 @@ def splitAt2 (toks : List String) (sep : String) : List String × List String :=
 
 def handle (toks : List String) : Option String :=
   match toks with
+  | ["log", "space", n] =>
+    some (match n.toNat? with
+    | some n => if Log.pySpace (Char.ofNat n) then "1" else "0"
+    | none => "bad-op")
   | "log" :: rest =>
     some (match Log.Wire.case rest with
     | some c => Log.Wire.obs (Log.run c)
